@@ -284,14 +284,15 @@ def showGates (l : List (String × Nat)) : String :=
 def cmdCheck (a : Args) : String :=
   let g := graphOf a
   let h := graphOf a "b"
-  match (if get a "repaired" = "1" then lcCheckR g h (get a "validate" ≠ "0") else lcCheck g h (get a "validate" ≠ "0")) with
+  -- repaired code: the function-by-function model (`_phase_correction` and the validation by canonical forms as in the Python)
+  match (if get a "repaired" = "1" then lcCheckF g h (get a "validate" ≠ "0") else lcCheck g h (get a "validate" ≠ "0")) with
   | .ok (yes, gates) => s!"ok yes={b01 yes} gates={showGates gates}"
   | .error e => errStr e
 
 def cmdConverter (a : Args) : String :=
   let g := graphOf a
   let h := graphOf a "b"
-  match (if get a "repaired" = "1" then converterGateListR g h else converterGateList g h) with
+  match (if get a "repaired" = "1" then (converterGateListF g h).map (fun l => (l, true)) else converterGateList g h) with
   | .ok (gates, ok) => s!"ok gates={showGates gates} phaseok={b01 ok}"
   | .error e => errStr e
 
